@@ -57,19 +57,24 @@ class ArrayGen:
             core += ["remove 7", "index_of 7", "filter_mut", "get_last", "mk_filter to=1", "drop o=1"]
         if focus == "growth":
             core = ["add 1", "add 2", "add_at 3 0", "remove_last", "trim_capacity"]
-        depth = 3 if tier == "quick" else 4
-        if focus in ("reject",):
-            depth = 2
+        # two layers: a trimmed alphabet enumerated deeper, the full alphabet enumerated shallower
+        base = ["add 1", "add 2", "add 0", "add_at 3 0", "add_at 4 1", "remove_at 0", "remove_last", "remove 1",
+                "filter_mut", "trim_capacity"]
+        quick = tier == "quick"
         if focus == "growth":
-            depth = 6 if tier == "quick" else 8
-        caps = (1, 2, 3) if tier == "quick" else (1, 2, 3, 4)
-        exps = ("2", "1.5") if tier == "quick" else ("2", "1.5", "1.1")
-        for cap in caps:
-            for ex in exps:
-                if depth >= 3 and ex != "2" and cap > 2 and focus != "growth":
-                    continue
+            layers = [(core, 4 if quick else 6, [(1, "2"), (1, "1.5"), (2, "1.1"), (3, "3")] if quick else
+                       [(c, e) for c in (1, 2, 3) for e in ("2", "1.5", "1.1")])]
+        elif focus == "reject":
+            layers = [(core, 2, [(2, "2")] if quick else [(1, "2"), (2, "2"), (3, "1.5")])]
+        else:
+            layers = [(base, 3 if quick else 4, [(1, "2"), (2, "2"), (1, "1.5"), (3, "2")] if quick else
+                       [(c, e) for c in (1, 2, 3, 4) for e in ("2", "1.5")]),
+                      (core, 2 if quick else 3, [(c, e) for c in (1, 2, 3) for e in ("2", "1.5")] if quick else
+                       [(c, e) for c in (1, 2, 3, 4) for e in ("2", "1.5", "1.1")])]
+        for alphabet, depth, confs in layers:
+            for cap, ex in confs:
                 for n in range(0, depth + 1):
-                    for seq in itertools.product(core, repeat=n):
+                    for seq in itertools.product(alphabet, repeat=n):
                         out.append([f"new cap={cap} exp={ex}"] + list(seq) + tail + ["destroy"])
         out.append(["new_default", "add 1", "add 2", "remove_last", "get_last", "destroy_cb"])
         out.append(["new cap=0 exp=2", "destroy"])
